@@ -102,7 +102,7 @@ REGISTRY["C11"] = dict(
     note=_BOUNDED + "  Known findings KF-C11-1 (copy()/reset() not implemented by on-disk and array matchers) and KF-C11-2 are skipped steps.")
 
 REGISTRY["C06"] = dict(
-    modules=["harness.c06_layout"],
+    modules=["harness.c06_layout", "harness.c06_kernels"],
     technique="CrossHair symbolic commit-cut masks and merge-pattern codes over the real writer/merge/codec stack; canonical dump vs the fewest-commit optimised build",
     text="The same document operations are cut into commits by every (symbolic) cut mask under eight merge patterns and three codec block "
          "limits; stored fields, lexicon, postings with positions/characters/weights, lengths, vectors, columns, sort/range/phrase/nested "
